@@ -43,6 +43,31 @@ Theorem meta_ops_total :
 Proof. exact meta_ops_total_l. Qed.
 Print Assumptions meta_ops_total.
 
+(* the same for the reader stack as a concrete build runs it: the compressor named by the super block is
+   created first, and a back end that is not compiled in (c5_comp_available, regenerated from the
+   working tree's config.h on every run) ends the run with SQFS_ERROR_UNSUPPORTED *)
+Theorem reader_build_safe :
+  forall avail codec depth efuel fuel img q, codecs_ok codec ->
+  Forall (fun i => item_crash i = false) (run_reader_build avail codec depth efuel fuel img q).
+Proof. exact reader_build_safe_l. Qed.
+Print Assumptions reader_build_safe.
+
+Theorem reader_build_total :
+  forall avail codec depth efuel fuel img, codecs_ok codec ->
+  (N.to_nat depth_bound <= depth)%nat -> (N.to_nat efuel_bound <= efuel)%nat ->
+  (N.to_nat fuel_bound <= fuel)%nat ->
+  Forall (fun i => item_oof i = false) (run_reader_build avail codec depth efuel fuel img QAll) /\
+  Forall (fun i => item_oof i = false) (run_reader_build avail codec depth efuel fuel img QXattr).
+Proof. exact reader_build_total_l. Qed.
+Print Assumptions reader_build_total.
+
+Theorem reader_build_unavailable :
+  forall avail codec depth efuel fuel img q s r,
+  run_reader codec depth efuel fuel img q = ISuper (Ok s) :: r -> avail (s_comp s) = false ->
+  run_reader_build avail codec depth efuel fuel img q = [ISuper (Ok s); IComp (Err E_UNSUPPORTED)].
+Proof. exact reader_build_unavailable_l. Qed.
+Print Assumptions reader_build_unavailable.
+
 (* ---- the carrying lemmas ---- *)
 
 (* meta_window: seek keeps offset < data_used <= sizeof(data), also when it fails *)
